@@ -227,11 +227,12 @@ pub proof fn lemma_witness<R: VxReadSeek, V, F: VxReadValueFn<R, V>>(f: F, data:
         decreases hi - lo,
 //@ before `let (probe_key, probe_value)`
         proof { lemma_geom(rs, psz, lo as int, n); assert(tkey(d0, rs, psz, lo as int) == spec_u64_at(d0, reader.pos())); }
-//@ after `lo += 1;`
+//@ after `let (probe_key, probe_value) = (read_u64(reader)?, read_value_function.call(reader)?);`
         proof {
             if probe_key == key {
-                lemma_cover_push(w, d0, rs, psz, n, key, 0, lo - 1, hi - 1);
-                w = w.push(lo - 1);
+                // entry `lo` (0-based) matches: it is recorded by the write_result of the Equal arm below
+                lemma_cover_push(w, d0, rs, psz, n, key, 0, lo as int, hi - 1);
+                w = w.push(lo as int);
             }
         }
 //@ before `Ok(result_write_idx)`
